@@ -215,3 +215,41 @@ Proof.
 Qed.
 
 End FB.
+
+(* ---- C12: the parseinfo record a rule puts on its AST delimits exactly what the invocation consumed ---- *)
+Section PInfo.
+Variable text : str.
+Variable re_at : nat -> nat -> option (nat * str).
+Variable isalnum isalpha : N -> bool.
+Variable lower upper : N -> N.
+Variable ic : icfg.
+Variable unsafe : list str.
+Variable rules : list rule.
+Variable ec : ecfg.
+Variable act : nat -> value -> aret.
+Variable lineat : nat -> nat.
+Hypothesis re_in_bounds : forall id pos n v, re_at id pos = Some (n, v) -> pos + n <= len text.
+
+(* a fresh invocation (memo miss) of a rule without action whose body yields an AST: the node returned carries, under both
+   reserved keys, ParseInfo(rule, pos = where the body started, endpos = where it ended, line/endline of those two), the
+   invocation ends exactly at endpos, and pos <= endpos <= len(text) *)
+Theorem rule_call_parseinfo (ev : @ev_t gstate) rl r k st v fb st2 a :
+  TrB text (StateOK text) ev -> StateOK text st -> fst k <= len text ->
+  lookup (memos st) k = None ->
+  ev (r_exp rl) (push (newf (fst k))) (if left_recursion ec then memoize ec rl st k OGuard else st) = (Ok v fb, st2) ->
+  r_isname rl && is_keyword upper ic ec (fold fb) = false ->
+  act r (fold fb) = ANone -> fold fb = VDict a -> parseinfo ec = true ->
+  let info := VInfo r (fst k) (pos fb) (lineat (fst k)) (lineat (pos fb)) in
+  let node := VDict (ast_put (ast_put a key_parseinfo info) key_parseinfo2 info) in
+  rule_call upper ic ec act lineat ev rl r k st = (ROk node (pos fb), memoize ec rl st2 k (OOk node (pos fb)))
+  /\ fst k <= pos fb <= len text.
+Proof.
+  intros T S H HL Hb Hk Ha Hf Hp info node. split.
+  - unfold rule_call. rewrite HL, Hb. unfold post_body. rewrite Hk, Ha. unfold with_parseinfo. rewrite Hp, Hf. reflexivity.
+  - assert (S1 : StateOK text (if left_recursion ec then memoize ec rl st k OGuard else st))
+      by (destruct (left_recursion ec); [apply memoize_ok; [exact S|exact I]|exact S]).
+    assert (HP : pos (push (newf (fst k))) <= len text) by (cbn; exact H).
+    destruct (trb_ok text (StateOK text) ev T _ _ _ _ _ _ S1 HP Hb) as [_ B]. cbn in B. exact B.
+Qed.
+
+End PInfo.
